@@ -107,6 +107,11 @@ def focused_query(draw):
     value = {'list': ['list', [val]], 'List': ['list', [val]], 'dict': ['dictv', val], 'Dict': ['dictv', val], 'tuple': ['tuple', [val]],
              'set': ['setv', val], 'listlist': ['list', [['list', [val]]]]}.get(w, val)
     kind = draw(st.sampled_from(['is_bearable', 'is_bearable', 'die', 'call', 'is_subhint', 'typehint_eq']))
+    alt = {'list': 'List', 'List': 'list', 'dict': 'Dict', 'Dict': 'dict', 'pipe': 'union', 'union': 'pipe'}
+    if kind in ('is_subhint', 'typehint_eq') and w in alt and draw(st.booleans()):
+        # the same leaf under the other spelling of the same container (list[C] vs typing.List[C], C | str vs Union[C, str]): the
+        # answer hinges on both sides naming the *same* class, and the two spellings do not share beartype's per-spelling caches
+        return [kind, hint, [alt[w]] + hint[1:]]
     if kind in ('is_subhint', 'typehint_eq'):
         leaf2 = draw(st.sampled_from(pairs))[0]
         hint2 = [hint[0]] + [leaf2 if x == leaf else x for x in hint[1:]] if w != 'bare' else leaf2
@@ -187,6 +192,21 @@ def _case(draw, tier):
         hist = [[kinds[0], hint, val(draw(st.sampled_from([leafval[1], leafval[2]]))), prefix]]
         hist += draw(st.lists(st.sampled_from([['gc'], [kinds[0], hint, val(leafval[1]), prefix]]), max_size=2))
         return {'history': hist, 'final': [kinds[1], hint, val(draw(st.sampled_from([leafval[1], leafval[2]]))), prefix], 'late_defined': False}
+    if draw(st.integers(0, 9)) == 0:
+        # comparison across spellings: the comparison API asked about one class under the PEP 585 / 604 spelling and the typing
+        # spelling of the same container, after the same question about a same-named other class (or its wrapper alone)
+        va, vb = draw(st.permutations(['v1', 'v2', 'v3']))[:2]
+        w = draw(st.sampled_from(['list', 'dict', 'pipe']))
+        alt = {'list': 'List', 'dict': 'Dict', 'pipe': 'union'}[w]
+
+        def pair(v, kind):
+            leaf = ['dyn', 'Dyn', v]
+            tail = [['str']] if w == 'pipe' else []
+            sides = [[w, leaf] + tail, [alt, leaf] + tail]
+            return [kind] + (sides if draw(st.booleans()) else sides[::-1])
+        kind = draw(st.sampled_from(['is_subhint', 'typehint_eq']))
+        hist = [pair(va, draw(st.sampled_from(['is_subhint', 'typehint_eq'])))] + draw(st.lists(st.sampled_from([['gc'], pair(va, kind)]), max_size=2))
+        return {'history': hist, 'final': pair(vb, kind), 'late_defined': False}
     final = draw(st.one_of(queries(d), focused_query(), focused_query()))
     # never an empty history (the reference run is the empty one); lengths spread evenly instead of Hypothesis' small-size bias
     n = draw(st.sampled_from([1, 2, 3, 4, 6, 8, 10, 12] + ([16, 20, 25] if tier != 'quick' else [])))
@@ -482,6 +502,9 @@ def run_case(case):
         lab = ('decorated-class-redefinition' if (same_name_other_variant or redefined) and names_final and all_decorated else
                'same-named-class' if (same_name_other_variant or redefined) and names_final else
                'forward-ref' if _mentions(final, lambda h: h[0] == 'fwd') else final[0])
+        if lab == 'same-named-class':
+            # the known finding lives in the coercion cache of the checking entry points; the comparison API is named apart
+            lab += ':' + ('door-comparison' if final[0] in ('is_subhint', 'typehint_eq') else 'check')
         fails.append({'sig': 'history-dependent:%s' % lab,
                       'detail': 'final=%r fresh process -> %r; after history %r -> %r' % (final, b['final'], case['history'], a['final'])})
     if a['final'] != a['again']:
